@@ -101,3 +101,211 @@ Theorem glue_rt_timer_add : forall s v t ci,
   Rt.tnext (Rt.timer_add s Syntax.TFixed v t ci) = (Rt.tnext s + 1)%N.
 Proof. exact timer_add_is_a_add. Qed.
 Print Assumptions glue_rt_timer_add.
+
+(* ================================================================== *)
+(** * Glue Layer R / Layer Q: the list treatment of the FnOnceQueues in coq/R/Rt.v is the `boxed` semantics
+    that C17 proves the flat byte-buffer queue of src/queue/flat.rs refines (docs/glue.md, second part). *)
+From Stk Require Import Q.Flat Q.Boxed Q.Sys Q.FlatProofs Q.SysProofs Q.FlatSafety R.Syntax R.Rt
+  Glue.QueuesAbs Glue.QueuesAbsSwap Glue.QueuesAbsWitness.
+
+(** Definitional ties.  [encq L c] is the Layer Q entry of the closure item [c] of Rt.v: id = uid, layout and
+    captured bytes given by the parameter [L] (Rt.v is independent of the layout: it does not even record the
+    size / alignment class of an instance).  Every append Rt.v performs on a queue field -- Core::defer,
+    Deferrer::defer and call! ([push_main], [submit _ QMain]), lazy! ([submit _ QLazy]) -- is [bq_push]. *)
+Theorem glue_rt_push : forall L s c,
+  map (encq L) (Rt.mainq (Rt.push_main s c)) = bq_push (map (encq L) (Rt.mainq s)) (encq L c) /\
+  map (encq L) (Rt.mainq (Rt.submit s QMain c)) = bq_push (map (encq L) (Rt.mainq s)) (encq L c) /\
+  map (encq L) (Rt.lazyq (Rt.submit s QLazy c)) = bq_push (map (encq L) (Rt.lazyq s)) (encq L c).
+Proof. exact rt_push_is_bq_push. Qed.
+Check glue_rt_push : forall L s c,
+  map (encq L) (Rt.mainq (Rt.push_main s c)) = bq_push (map (encq L) (Rt.mainq s)) (encq L c) /\
+  map (encq L) (Rt.mainq (Rt.submit s QMain c)) = bq_push (map (encq L) (Rt.mainq s)) (encq L c) /\
+  map (encq L) (Rt.lazyq (Rt.submit s QLazy c)) = bq_push (map (encq L) (Rt.lazyq s)) (encq L c).
+Print Assumptions glue_rt_push.
+
+(** a call that reaches a Prep actor is pushed at the end of the actor's held queue (`prep.queue.push`) *)
+Theorem glue_rt_hold : forall L s uid cid a body arg caps sq x held,
+  Rt.aget (Rt.actors s) a = Some x -> Rt.a_state x = Rt.SPrep held ->
+  let ci := CI uid cid (KMeth a body arg) caps sq in
+  exists held', Rt.run_item ci s = ([], Rt.upd_actor s a (Rt.with_state x (Rt.SPrep held'))) /\
+    map (encq L) held' = bq_push (map (encq L) held) (encq L ci).
+Proof. exact rt_hold_is_bq_push. Qed.
+Print Assumptions glue_rt_hold.
+
+(** execute: the loop of Stakker::run (MLoop) on a non-empty main queue hands over, as micro-ops in order,
+    exactly the entries [bq_execute] delivers and leaves the queue [bq_execute] leaves; likewise the lazy queue *)
+Theorem glue_rt_execute : forall L t s, rq_is_empty (Rt.mainq s) = false ->
+  let '(es, q') := bq_execute (map (encq L) (Rt.mainq s)) in
+  exists items,
+    Rt.handle (Rt.MLoop t) s = (map Rt.MRunItem items ++ [Rt.MLoop t], Rt.set_mainq s (snd (rq_execute (Rt.mainq s)))) /\
+    map (encq L) items = es /\ map (encq L) (Rt.mainq (Rt.set_mainq s (snd (rq_execute (Rt.mainq s))))) = q'.
+Proof. exact rt_execute_is_bq_execute. Qed.
+Print Assumptions glue_rt_execute.
+Theorem glue_rt_execute_lazy : forall L t s, rq_is_empty (Rt.mainq s) = true -> rq_is_empty (Rt.lazyq s) = false ->
+  let '(es, q') := bq_execute (map (encq L) (Rt.lazyq s)) in
+  exists items,
+    Rt.handle (Rt.MLoop t) s = (map Rt.MRunItem items ++ [Rt.MLoop t], Rt.set_lazyq s (snd (rq_execute (Rt.lazyq s)))) /\
+    map (encq L) items = es /\ map (encq L) (Rt.lazyq (Rt.set_lazyq s (snd (rq_execute (Rt.lazyq s))))) = q'.
+Proof. exact rt_execute_lazy_is_bq_execute. Qed.
+Print Assumptions glue_rt_execute_lazy.
+(** the other executes: first execute of Stakker::run without / with fired timers pushed behind the batch
+    (Timers::advance(now, &mut alt_main)), Prep -> Ready *)
+Theorem glue_rt_execute_first : forall t s, (t >? Rt.now s) = false ->
+  Rt.handle (Rt.MRunMain t) s =
+    (map Rt.MRunItem (fst (rq_execute (Rt.mainq s))), Rt.set_mainq s (snd (rq_execute (Rt.mainq s)))).
+Proof. exact rt_run_main_noadv. Qed.
+Theorem glue_rt_execute_first_timers : forall t s, (t >? Rt.now s) = true ->
+  let '(fired, s2) := Rt.fire t (Rt.set_now (Rt.set_mainq s (snd (rq_execute (Rt.mainq s)))) t) in
+  Rt.handle (Rt.MRunMain t) s = (map Rt.MRunItem (fold_left rq_push fired (fst (rq_execute (Rt.mainq s)))), s2) /\
+  Rt.mainq s2 = rq_new.
+Proof. exact rt_run_main_adv. Qed.
+Theorem glue_rt_to_ready : forall s a x held, Rt.aget (Rt.actors s) a = Some x -> Rt.a_state x = Rt.SPrep held ->
+  fst (Rt.handle (Rt.MToReady a) s) = map Rt.MRunItem (fst (rq_execute held)).
+Proof. exact rt_to_ready. Qed.
+Print Assumptions glue_rt_execute_first_timers.
+
+(** drop: a round of Stakker::drop (MDrain) drops, as micro-ops in order, exactly what [bq_drop] delivers and
+    installs the fresh queue; the lazy queue is the first field dropped; a dying Prep actor drops its held queue;
+    Core::new drops the leftovers of the global deferrer queue *)
+Theorem glue_rt_drop : forall L i s, (i >=? Gen.SrcCore.TEARDOWN_ROUNDS) = false -> rq_is_empty (Rt.mainq s) = false ->
+  exists items, Rt.handle (Rt.MDrain i) s = (map Rt.MDropItem items ++ [Rt.MDrain (i + 1)], Rt.set_mainq s rq_new) /\
+    map (encq L) items = bq_drop (map (encq L) (Rt.mainq s)) /\ map (encq L) (Rt.mainq (Rt.set_mainq s rq_new)) = bq_new.
+Proof. exact rt_drop_is_bq_drop. Qed.
+Print Assumptions glue_rt_drop.
+Theorem glue_rt_drop_fields : forall s, exists rest s1,
+  Rt.handle Rt.MDropFields s = (map Rt.MDropItem (rq_drop (Rt.lazyq s)) ++ rest, s1) /\ Rt.lazyq s1 = rq_new.
+Proof. exact rt_drop_fields. Qed.
+Theorem glue_rt_drop_held : forall a held s, Rt.state_drops a (Rt.SPrep held) s = (map Rt.MDropItem (rq_drop held), s).
+Proof. exact rt_state_drops. Qed.
+Theorem glue_rt_drop_leftovers : forall t s, Rt.dk s = Rt.DGlobal ->
+  fst (Rt.handle (Rt.MNew t) s) = map Rt.MDropItem (rq_drop (Rt.mainq s)) /\ Rt.mainq (snd (Rt.handle (Rt.MNew t) s)) = rq_new.
+Proof. exact rt_new_drops. Qed.
+
+(** is_empty; and "recreate the queues" (core.rs 149-155): the loop ends only when both queues are empty, so
+    replacing them by FnOnceQueue::new() changes no list -- Rt.v only moves the deadline *)
+Theorem glue_rt_is_empty : forall L s,
+  rq_is_empty (Rt.mainq s) = bq_is_empty (map (encq L) (Rt.mainq s)) /\
+  rq_is_empty (Rt.lazyq s) = bq_is_empty (map (encq L) (Rt.lazyq s)).
+Proof. exact rt_is_empty_is_bq_is_empty. Qed.
+Print Assumptions glue_rt_is_empty.
+Theorem glue_rt_recreate : forall t s, rq_is_empty (Rt.mainq s) = true -> rq_is_empty (Rt.lazyq s) = true ->
+  fst (Rt.handle (Rt.MLoop t) s) = [] /\
+  Rt.mainq (snd (Rt.handle (Rt.MLoop t) s)) = rq_new /\ Rt.lazyq (snd (Rt.handle (Rt.MLoop t) s)) = rq_new.
+Proof. exact rt_loop_end. Qed.
+Print Assumptions glue_rt_recreate.
+(** `swap_queue(&mut alt_main); alt_main.execute(..)` with alt_main empty is Rt.v's "take the list, leave []" *)
+Theorem glue_rt_swap_execute : forall q : list citem,
+  let '(dq, alt) := rq_swap q rq_new in
+  let '(batch, alt') := rq_execute alt in
+  (batch, dq, alt') = (fst (rq_execute q), snd (rq_execute q), rq_new).
+Proof. exact swap_execute_is_take. Qed.
+
+(** The composition theorem.  For EVERY layout [L] (any size, any power-of-two alignment, any captured bytes per
+    closure instance; [class_layout] = the 8 x 8 capture classes of Layer R's generator is an instance), every
+    behaviour [rprog] of running closures (the pushes instance [u] performs when it runs, onto other queues,
+    with any 8-aligned allocator answers), every number [n] of queues and EVERY sequence [ops] of
+    push / execute / is_empty / drop / recreate (any 8-aligned allocator answers) that Layer R's list machine
+    [lrun] performs from empty queues with events [revs] and final lists [st']: the SAME sequence on the
+    byte-level model of src/queue/flat.rs ([Sys.run flat_impl], Layer Q) either completes with EXACTLY the
+    events of the list machine (same closure instances run in the same order, same instances dropped un-run in
+    the same order, same is_empty answers), every flat queue then holding exactly Layer R's list; or stops
+    because the address space is exhausted (EOverflow / ELayout; excluded under size bounds by
+    [flat_push_total]) -- never an assertion, never an out-of-bounds / misaligned access, never a clobbered cell.
+    Proof: lists = boxed run by computation ([b_run]), composed with C17's [flat_refines_boxed] and
+    [flat_no_bug_error]. *)
+Theorem glue_queue_ops : forall L rprog n ops revs st',
+  lay_wf L -> rprog_wf rprog -> Forall rop_wf ops ->
+  lrun rprog (repeat rq_new n) ops = Some (revs, st') ->
+  match Sys.run flat_impl (cprog L rprog) (Sys.init flat_impl n) (map (cop L) ops) with
+  | Flat.Ok (evs, fs) =>
+      evs = map (cev L) revs /\ map abs fs = encs L st' /\
+      Forall (fun q => fq_drop q = Flat.Ok (abs q) /\ fq_is_empty q = bq_is_empty (abs q)) fs
+  | Flat.Err e => e = Flat.EOverflow \/ e = Flat.ELayout
+  end.
+Proof. exact glue_queue_ops_proved. Qed.
+Check glue_queue_ops : forall L rprog n ops revs st',
+  (forall u, 0 <= l_size L u /\ 0 <= l_log L u /\ Z.of_nat (length (l_bytes L u)) = l_size L u) ->
+  (forall u, Forall (fun p => 0 <= rp_base p /\ rp_base p mod 8 = 0) (rprog u)) ->
+  Forall (fun o => match o with RPush p => 0 <= rp_base p /\ rp_base p mod 8 = 0 | _ => True end) ops ->
+  lrun rprog (repeat [] n) ops = Some (revs, st') ->
+  match Sys.run flat_impl (cprog L rprog) (Sys.init flat_impl n) (map (cop L) ops) with
+  | Flat.Ok (evs, fs) =>
+      evs = map (cev L) revs /\ map abs fs = map (map (encq L)) st' /\
+      Forall (fun q => fq_drop q = Flat.Ok (abs q) /\ fq_is_empty q = bq_is_empty (abs q)) fs
+  | Flat.Err e => e = Flat.EOverflow \/ e = Flat.ELayout
+  end.
+Print Assumptions glue_queue_ops.
+
+(** one queue, closures that push nothing: "push* / execute / drop / is_empty / recreate in any order" *)
+Theorem glue_one_queue : forall L ops revs q',
+  lay_wf L -> Forall rop_wf ops ->
+  lrun (fun _ => []) [rq_new] ops = Some (revs, [q']) ->
+  match Sys.run flat_impl (fun _ => []) (Sys.init flat_impl 1) (map (cop L) ops) with
+  | Flat.Ok (evs, fs) =>
+      evs = map (cev L) revs /\
+      exists f, fs = [f] /\ fq_drop f = Flat.Ok (map (encq L) q') /\ fq_is_empty f = rq_is_empty q'
+  | Flat.Err e => e = Flat.EOverflow \/ e = Flat.ELayout
+  end.
+Proof. exact glue_one_queue_proved. Qed.
+Print Assumptions glue_one_queue.
+
+(** the same with `mem::swap` of two places as an operation of both machines ([xrun] = [Sys.run] + swap of two
+    queue values; without swaps it is [Sys.run]): the form in which core.rs uses the queues -- closures push
+    onto the place of the deferrer queue / lazy_queue, the place executed is the local alt_main / alt_lazy *)
+Theorem glue_queue_ops_swap : forall L rprog n ops revs st',
+  lay_wf L -> rprog_wf rprog -> Forall rxop_wf ops ->
+  lxrun rprog (repeat rq_new n) ops = Some (revs, st') ->
+  match xrun flat_impl (cprog L rprog) (Sys.init flat_impl n) (map (cxop L) ops) with
+  | Flat.Ok (evs, fs) =>
+      evs = map (cev L) revs /\ map abs fs = encs L st' /\
+      Forall (fun q => fq_drop q = Flat.Ok (abs q) /\ fq_is_empty q = bq_is_empty (abs q)) fs
+  | Flat.Err e => e = Flat.EOverflow \/ e = Flat.ELayout
+  end.
+Proof. exact glue_queue_ops_swap_proved. Qed.
+Print Assumptions glue_queue_ops_swap.
+Theorem glue_xrun_noswap : forall (S : Type) (I : qimpl S) prog ops st,
+  xrun I prog st (map QOp ops) = Sys.run I prog st ops.
+Proof. exact @xrun_noswap. Qed.
+Theorem glue_lxrun_noswap : forall rprog ops st, lxrun rprog st (map XOp ops) = lrun rprog st ops.
+Proof. exact lxrun_noswap. Qed.
+
+(** the capture classes of Layer R's generator are a layout *)
+Theorem glue_class_layout_wf : forall cls fill, lay_wf (class_layout cls fill).
+Proof. exact class_layout_wf. Qed.
+
+(** Non-vacuity.  (1) One queue: closures of 100 B / align 64, 0 B / align 16, 2000 B / align 4, 4096 B / align 128
+    pushed with two buffer growths (1024 -> 2048 -> 8192 bytes, the two old buffers chained), is_empty, execute,
+    is_empty, recreate, three more pushes, DROP OF THE NON-EMPTY QUEUE, is_empty: hypotheses hold, the list
+    machine and the flat model both complete with the same ten events. *)
+Example glue_queue_example_hyps : lay_wf exL /\ Forall rop_wf ex1_ops /\
+  lrun (fun _ => []) [rq_new] ex1_ops = Some (ex1_revs, [rq_new]).
+Proof. exact (conj exL_wf (conj ex1_wf ex1_list)). Qed.
+Example glue_queue_example_flat : exists fs,
+  Sys.run flat_impl (fun _ => []) (Sys.init flat_impl 1) (map (cop exL) ex1_ops) = Flat.Ok (map (cev exL) ex1_revs, fs) /\
+  map fq_geometry fs = [ (0, 0, 0) ].
+Proof. exact ex1_flat. Qed.
+Example glue_queue_example_growth :
+  ex1_geometry 4 = Some [ ((65544, 4216, 8192), [ (8200, 2040, 2048); (4096, 176, 1024) ]) ] /\
+  ex1_geometry 7 = Some [ ((65544, 0, 8192), []) ] /\
+  ex1_geometry 8 = Some [ ((0, 0, 0), []) ] /\
+  lrun (fun _ => []) [rq_new] (firstn 7 ex1_ops) = lrun (fun _ => []) [rq_new] (firstn 8 ex1_ops).
+Proof. exact ex1_growth_chain. Qed.
+(** (2) The places of core.rs (0 deferrer queue, 1 alt_main, 2 lazy_queue, 3 alt_lazy, 4 local of Stakker::drop):
+    the sequence `Stakker::run` + `Stakker::drop` perform for the Layer R program [ex2_prog], with nested pushes
+    from running closures; the list machine, the flat model AND the Layer R machine itself ([Rt.exec]) run /
+    drop the same instances in the same order. *)
+Example glue_places_example_hyps : (Forall rxop_wf ex2_ops /\ rprog_wf ex2_rprog) /\
+  lxrun ex2_rprog (repeat rq_new 5) ex2_ops = Some (ex2_revs, repeat rq_new 5).
+Proof. exact (conj ex2_wf ex2_list). Qed.
+Example glue_places_example_flat : exists fs,
+  xrun flat_impl (cprog exL ex2_rprog) (Sys.init flat_impl 5) (map (cxop exL) ex2_ops) = Flat.Ok (map (cev exL) ex2_revs, fs) /\
+  map fq_is_empty fs = [ true; true; true; true; true ].
+Proof. exact ex2_flat. Qed.
+Example glue_places_example_rt : exists t, Rt.exec Rt.DGlobal 300 ex2_prog = Rt.Done t /\ obs_rt t = obs_l ex2_revs.
+Proof. exact ex2_rt_machine. Qed.
+(** (3) what the list machine rejects is what Layer Q rejects (a push onto the place being executed) *)
+Example glue_nested_self_rejected :
+  lrun (fun u => if (u =? 1)%N then [ rp 0 2 8200 ] else []) [rq_new] [ RPush (rp 0 1 4096); RExecute 0 ] = None /\
+  Sys.run flat_impl (cprog exL (fun u => if (u =? 1)%N then [ rp 0 2 8200 ] else [])) (Sys.init flat_impl 1)
+    (map (cop exL) [ RPush (rp 0 1 4096); RExecute 0 ]) = Flat.Err Flat.ENestedSelf.
+Proof. exact ex3_nested_self. Qed.
